@@ -77,6 +77,21 @@ def full_matrix(n, labels, codes=None):
     return M
 
 
+def avoid_h4(M):
+    """random matrices of rank 4 and 5: a parabolic subgroup of type H4 (path 5 - 3 - 3, 14400
+    elements) makes the library spend 5-30 s on an automaton with 14400+ states; such a
+    sub-diagram gets its 5 replaced by 7 (H4 itself is a fixed case of the thorough tier)"""
+    n = len(M)
+    M = [list(r) for r in M]
+    for sub in itertools.combinations(range(n), 4):
+        for p in itertools.permutations(sub):
+            a, b, c, d = p
+            if (M[a][b] == 5 and M[b][c] == 3 and M[c][d] == 3 and M[a][c] == 2
+                    and M[a][d] == 2 and M[b][d] == 2):
+                M[a][b] = M[b][a] = 7
+    return M
+
+
 class Setup:
     """library group + harness view of one case"""
 
@@ -207,7 +222,7 @@ def coxeter_case(draw, tier_L=None, ranks=(2, 3, 4, 5)):
         pool = draw(st.sampled_from([[2, 3, 0], [2, 3, 4, 5, 6, 7, 0], [2, 2, 3, 3, 4, 5, 0]]))
         labels = [draw(st.sampled_from(pool)) for _ in range(npairs)]
     codes = [draw(st.sampled_from(INF_CODES)) for _ in range(3)]
-    M = full_matrix(n, labels, codes)
+    M = avoid_h4(full_matrix(n, labels, codes))
     case = dict(matrix=M)
     case.update(draw(presentation(n)))
     if n == 2:
@@ -266,6 +281,14 @@ def exhaustive_domains(scale=1.0, with_rank4=True):
                 r4.append(c)
             doms.append(("rank 4, all 729 matrices over {2, 3, inf}, all words up to length %d"
                          % L4, r4))
+            named = []
+            for i, lab in enumerate([(3, 2, 2, 4, 2, 3), (4, 2, 2, 3, 2, 3),      # F4, B4
+                                     (3, 2, 2, 3, 2, 5), (5, 2, 2, 3, 2, 3)]):    # H4, H4
+                c = dict(matrix=full_matrix(4, lab), L=L4)
+                c.update(_present(i, 4))
+                named.append(c)
+            doms.append(("rank 4: F4, B4 and H4 (two generator orders), all words up to length "
+                         "%d" % L4, named))
         return doms
     return make
 
